@@ -45,14 +45,22 @@ PREFIX = ["USER anonymous", "EPSV"]
 def run_on(backend, hist):
     """returns list of observations per step: (classes, data, names, tree)"""
     conf = Conf(USERS, TREE, backend=backend, payload=PAYLOAD)
-    rig = conf.new_rig()
+    two = any(sym.startswith("2:") for sym in hist)
+    rig = conf.new_rig(n_sessions=2 if two else 1)
     out = []
     try:
-        rig.ev(0, "@connect")
-        for line in PREFIX:
-            rig.ev(0, line)
-        s = rig.sessions[0]
+        for i in range(2 if two else 1):
+            rig.ev(i, "@connect")
+            for line in PREFIX:
+                rig.ev(i, line)
         for sym in hist:
+            # "2:" - the command comes from a second session (its own control connection, same account)
+            who = 0
+            if sym.startswith("2:"):
+                who, sym = 1, sym[2:]
+            s = rig.sessions[who]
+            _ev = rig.ev
+            rig_ev = lambda i, e, _who=who: _ev(_who, e)      # noqa
             transfer = sym.startswith("T:") or sym.startswith("M:")
             line = sym[2:] if transfer else sym
             mid = None
@@ -60,19 +68,19 @@ def run_on(backend, hist):
                 line, mid = line.split("|")
             verb = line.partition(" ")[0].lower()
             if transfer:
-                rig.ev(0, "@data")
-            r = rig.ev(0, line) or []
+                rig_ev(0, "@data")
+            r = rig_ev(0, line) or []
             codes = [c for c, _ in r]
             if mid is not None and codes and codes[-1][:1] == "1" and s.data is not None:
-                rig.ev(0, "@dsend " + PAYLOAD[:1].decode())
-                rm = rig.ev(0, mid) or []
-                rig.ev(0, "@dsend " + PAYLOAD[1:].decode())
-                r2 = rig.ev(0, "@dclose") or []
+                rig_ev(0, "@dsend " + PAYLOAD[:1].decode())
+                rm = rig_ev(0, mid) or []
+                rig_ev(0, "@dsend " + PAYLOAD[1:].decode())
+                r2 = rig_ev(0, "@dclose") or []
                 rig.collect()
                 codes += [c for c, _ in rm] + [c for c, _ in r2]
             elif transfer and verb in ("stor", "appe") and codes and codes[-1][:1] == "1" and s.data is not None:
-                rig.ev(0, "@dsend " + PAYLOAD.decode())
-                r2 = rig.ev(0, "@dclose") or []
+                rig_ev(0, "@dsend " + PAYLOAD.decode())
+                r2 = rig_ev(0, "@dclose") or []
                 rig.collect()
                 codes += [c for c, _ in r2]
             data = names = None
@@ -82,7 +90,7 @@ def run_on(backend, hist):
                 names = sorted(parse_names(verb, s.data.received))
             if transfer and s.data is not None and not s.data.eof:
                 # an unused data connection stays with the session; drop it so that steps stay independent
-                rig.ev(0, "@dclose")
+                rig_ev(0, "@dclose")
             mlst_type = None
             if verb == "mlst" and codes == ["250"]:
                 body = r[-1][1][1] if len(r[-1][1]) > 1 else ""
@@ -215,11 +223,43 @@ def expand(hist):
     if len(hist) == 2:
         part.sample({"history": PREFIX + hist, "codes": {b: [o["codes"] for o in obs[b]] for b in BACKENDS}}, limit=1)
     for p in problems:
-        verb = p["step"].replace("T:", "").partition(" ")[0]
+        verb = p["step"].replace("2:", "").replace("T:", "").partition(" ")[0]
         part.violation({"kind": p["kind"], "verb": verb, "field": p.get("field"), "backend": p.get("backend", p.get("other"))},
                        {"problem": p}, replay={"history": list(hist)})
     state_key = report.fp([tree_key, key])
     return part, state_key, bool(problems)
+
+
+LOOKS1 = ["MLST b", "MLST new", "T:RETR b", "T:LIST a", "CWD a", "MLST a/x", "T:RETR a/x", "MLST c", "T:MLSD c", "MLST a/s"]
+CHANGES2 = ["2:DELE b", "2:T:STOR new", "2:T:STOR b", "2:MKD new", "2:RMD c", "2:DELE a/x", "2:T:APPE b", "2:MKD c/k", "2:RMD a/s/t",
+            "2:T:STOR a/x"]
+ACTS1 = ["MLST b", "MLST new", "T:RETR b", "T:RETR new", "DELE b", "DELE new", "T:LIST a", "T:MLSD c", "MLST a/x", "T:RETR a/x",
+         "DELE a/x", "RMD c", "MLST c", "T:STOR b", "T:APPE new", "RMD new", "MKD new", "T:LIST .", "RMD a/s"]
+
+
+def two_session_histories(tier):
+    """what one session looked at is changed by another session, then the first one looks (or acts) again: the three
+    backends agree - the shared tree is the only state"""
+    out = []
+    for look in LOOKS1:
+        for change in CHANGES2:
+            for act in ACTS1:
+                out.append([look, change, act])
+    # a rename by the other session in between (two commands)
+    for look in ("MLST b", "T:RETR b", "MLST new", "T:LIST a"):
+        for act in ("MLST b", "MLST new", "T:RETR new", "T:RETR b", "DELE b", "DELE new"):
+            out.append([look, "2:RNFR b", "2:RNTO new", act])
+            out.append([look, "2:RNFR a/x", "2:RNTO b", act.replace("new", "a/x")])
+    return out if tier != "quick" else out[::3] + out[-48:]
+
+
+def two_sessions(tier):
+    total = report.Partial()
+    hists = two_session_histories(tier)
+    for part, key, dead in report.pmap(expand, hists):
+        total.merge(part)
+    total.counters["ftp_two_session_histories"] = len(hists)
+    return total
 
 
 def bfs(depth, cap):
@@ -381,10 +421,12 @@ def run(tier, seed, t0):
         parts = [bfs(2, 30000), api_bfs(2, 20000)]
     else:
         parts = [bfs(4, 300000), api_bfs(3, 200000)]
+    parts.append(two_sessions(tier))
     parts += report.pmap(timeout_work, [(sym, 1 if tier == "quick" else 3) for sym in TIMEOUT_SYMS])
     part = report.merge_all(parts)
     bounds = {"path_timeout": "executor backend, path_timeout 0.05 s, jobs withdrawn when cancelled while queued; %d mutating "
                               "commands under <= %d timer/order deviations" % (len(TIMEOUT_SYMS), 1 if tier == "quick" else 3),
+              "two_sessions": "look (session 1) x change by a second session x look/act again (session 1): %d x %d x %d histories plus renames (quick: every third)" % (len(LOOKS1), len(CHANGES2), len(ACTS1)),
               "ftp_alphabet": len(ALPHABET), "ftp_depth": 2 if tier == "quick" else 4, "api_ops": len(API_OPS),
               "api_depth": 2 if tier == "quick" else 3, "universe": UNIVERSE, "backends": BACKENDS}
     return report.finish(
